@@ -19,6 +19,7 @@ var verifHarnesses = map[string]func(){
 	"VerifC17_FilterShapes":       VerifC17_FilterShapes,
 	"VerifC17_SingleOIDCFilter":   VerifC17_SingleOIDCFilter,
 	"VerifC17_DefaultAndOverride": VerifC17_DefaultAndOverride,
+	"VerifC17_MergedPathsAreJudgedAfterTheMerge": VerifC17_MergedPathsAreJudgedAfterTheMerge,
 }
 
 const (
@@ -170,6 +171,31 @@ func VerifC17_SingleOIDCFilter() {
 	cfg.Chains = []*configv1.FilterChain{{Name: vn.StringIn("chain-name", 2, alphaLower),
 		Filters: []*configv1.Filter{{Type: &configv1.Filter_Oidc{Oidc: kitOIDC("oidc", 2)}}}}}
 	kitLoadAndJudge(cfg)
+}
+
+// VerifC17_MergedPathsAreJudgedAfterTheMerge: the callback URI and the logout path of a filter may
+// come from different messages (default and override). The "non-root, and distinct from each
+// other" requirements speak of the resolved filter, whichever message supplied which part.
+func VerifC17_MergedPathsAreJudgedAfterTheMerge() {
+	cfg := &configv1.Config{ListenAddress: "0.0.0.0", ListenPort: 8080, HealthListenPort: 8081, LogLevel: "info", Threads: 1}
+	part := func(n string) *oidcv1.OIDCConfig {
+		c := kitOIDCv(n, 0, false, "https://idp/e")
+		if vn.Choice(n+"-callback-absent", 2) == 1 {
+			c.CallbackUri = ""
+		}
+		if vn.Choice(n+"-logout", 2) == 1 {
+			c.Logout = &oidcv1.LogoutConfig{Path: vn.StringIn(n+"-logout-path", vn.Bound("cfg-string-bytes", 3)+1, alphaLower+"/"), RedirectUri: "https://idp/e"}
+		}
+		return c
+	}
+	cfg.DefaultOidcConfig = part("default")
+	ovr := part("override")
+	cfg.Chains = []*configv1.FilterChain{{Name: "c", Filters: []*configv1.Filter{{Type: &configv1.Filter_OidcOverride{OidcOverride: ovr}}}}}
+	split := vn.Or(vn.And(cfg.DefaultOidcConfig.Logout != nil, ovr.Logout == nil, ovr.CallbackUri != ""), vn.And(ovr.Logout != nil, cfg.DefaultOidcConfig.Logout == nil, cfg.DefaultOidcConfig.CallbackUri != "", ovr.CallbackUri == ""))
+	got := kitLoadAndJudge(cfg)
+	if got != nil {
+		vn.Cover("C17/accepted-with-callback-and-logout-from-different-messages", split)
+	}
 }
 
 // VerifC17_DefaultAndOverride: a default configuration merged with one override filter.
